@@ -54,7 +54,8 @@ func TestMain(m *testing.M) {
 			"Completeness of the hull is not demanded (classes empty-or-partial-output/*). Because the four conditions are met by returning nothing (a flipped in-circle sign does exactly that), one non-vacuity condition is added, signature missing-interior-triangle: " +
 			"a triangle of the input's Delaunay triangulation (reference: all index triples with an empty circumcircle) whose closed circumdisk lies inside the convex hull of the input must be returned - its circumcircle is empty whatever enclosing vertices an implementation adds, since those are outside the hull. " +
 			"Non-trivial = at least one triangle returned and n >= 5; distinct by case JSON. " +
-			"Sub-check concurrent-callers: 2-6 inputs triangulated at the same time, each judged by the full oracle; non-trivial when >= 2 of them have >= 3 points in general position.",
+			"Sub-check concurrent-callers: 2-6 inputs triangulated at the same time, each judged by the full oracle; non-trivial when >= 2 of them have >= 3 points in general position. " +
+			"The input slice carries 0, 1, 3, 8 or 64 elements of spare capacity (class input-slice-with-spare-capacity) and must be bit-identical after the call.",
 		Assumptions: []string{
 			fmt.Sprintf("general position is read with a margin: every triple has |cross| >= %g*l^2 and every quadruple |in-circle det| >= %g*L^4 (l, L = L-infinity diameter of the triple / quadruple); sets violating it are never generated and are skipped when met in a replay file", muCol, muCirc),
 			"the margin cannot be extended to the implementation's auxiliary enclosing vertices (their position is not part of the contract); a float64 in-circle evaluation involving them is unreliable only within ~1e-14 relative of degeneracy, estimated < 1e-2 such events per thorough run, none observed",
